@@ -14,7 +14,7 @@ func init() {
 		Run:          func(s *simrt.Sim) { udprelay.Run(s, udprelay.FocusC12) },
 		MaxSteps:     300000,
 		QuickRuns:    12000,
-		ThoroughSecs: 600,
+		ThoroughSecs: 400,
 		YieldFiles:   []string{"service/udp_nat.go", "service/udp_nat_mmsg.go", "service/udp_session.go", "service/udp_session_mmsg.go", "service/service.go"},
 		Rule: "one run = one relay configuration (as C11) with 1-5 sessions driven through a lifecycle scenario drawn from the tape: stop while busy, idle out then stop, idle out + restart + stop, " +
 			"stop while new sessions are being initialised (fresh client addresses, router rejections); the stop instant is drawn at microsecond granularity; optional loss/duplication/delay and " +
